@@ -335,10 +335,35 @@ class _Inliner:
         mapping = self.fresh({p["did"] for p in params} | _declared(lam["body"]))
         decls = []
         sub = {}
+        written = set()
+        for x in walk(lam["body"]):
+            k_ = x.get("k")
+            t_ = None
+            if (k_ == "BinaryOperator" and x.get("op") == "=") or k_ == "CompoundAssignOperator":
+                t_ = strip(x["c"][0])
+            elif k_ == "UnaryOperator" and x.get("op") in ("++", "--", "post++", "post--", "pre++", "pre--", "&") and x.get("c"):
+                t_ = strip(x["c"][0])
+            elif k_ == "CXXOperatorCallExpr" and x.get("op") in ("=", "+=", "-=", "++", "--") and len(x.get("c", [])) >= 2:
+                t_ = strip(x["c"][1])
+            elif k_ == "CXXMemberCallExpr" and not x.get("cconst") and isinstance(x.get("c"), list) and x["c"]:
+                me_ = strip(x["c"][0])
+                if me_.get("k") == "MemberExpr" and me_.get("c") and not me_.get("arrow"):
+                    t_ = strip(me_["c"][0])
+            if t_ is not None and t_.get("k") == "DeclRefExpr" and (t_.get("ref") or {}).get("did") is not None:
+                written.add(t_["ref"]["did"])
         for p, a in zip(params, args):
             if p.get("t", "").rstrip().endswith("&") and not p.get("t", "").rstrip().endswith("&&") and _stable_lvalue(a):
                 # a reference parameter bound to a variable / field: the parameter IS that object
                 sub[mapping[p["did"]]] = a
+                continue
+            a0 = strip(a)
+            while a0.get("k") in ("CXXConstructExpr", "ImplicitCastExpr", "MaterializeTemporaryExpr", "CXXBindTemporaryExpr") and len([c_ for c_ in a0.get("c", []) if isinstance(c_, dict)]) == 1:
+                a0 = strip([c_ for c_ in a0["c"] if isinstance(c_, dict)][0])
+            if a0.get("k") == "DeclRefExpr" and (a0.get("ref") or {}).get("dk") in ("Var", "ParmVar") and p["did"] not in written and a0["ref"].get("did") not in written \
+                    and not p.get("t", "").rstrip().endswith("&&") and re.sub(r"^const\s+", "", (p.get("t") or "")).strip() == re.sub(r"^const\s+", "", (a0.get("t") or "")).strip():
+                # a by-value parameter that is never modified, given a variable that the body never modifies either: the copy is
+                # only another name for the caller's variable (pointer / shared_ptr / scalar alike)
+                sub[mapping[p["did"]]] = a0
                 continue
             decls.append({"k": "DeclStmt", "l": call.get("l"), "decls": [
                 {"k": "Var", "name": p["name"], "did": mapping[p["did"]], "t": p["t"], "l": call.get("l"), "init": copy.deepcopy(a), "inlined_param": True}]})
